@@ -17,3 +17,4 @@ OBLIGATIONS = OBLIGATIONS + [K.EVERY_VALUE]
 OBLIGATIONS = OBLIGATIONS + [K.MAGICS]
 # one run per chromosome (D22): a re-appearing chromosome must be refused, else sections are out of chromosome order
 OBLIGATIONS = OBLIGATIONS + [K.IDMAP]
+OBLIGATIONS = OBLIGATIONS + [K.NODE_COUNTS, K.CHROM_TREE_COUNT]
